@@ -78,7 +78,7 @@ def s_ds(tier, seed, out):
                     out.write("ds\t" + " ".join(pre + [op + arg[::-1]]) + "\n")
                     n += 2
     # dense long arguments (every digit non-zero, digit sums past 255 / 65 535, lengths around 2^8 and 2^16)
-    for ln in (15, 20, 28, 29, 30, 32, 40, 57, 64, 100, 255, 256, 257, 300, 1000, 7300, 66000):
+    for ln in sorted(set((15, 20, 28, 29, 30, 32, 40, 57, 64, 100, 255, 256, 257, 300, 1000, 7300, 66000) + tuple(_srcmine.sizes(41, 3000)))):
         args = [d * ln for d in "123456789"] + ["9" * (ln - 1) + "4", "".join(rng.choice("123456789") for _ in range(ln))]
         for arg in (args if ln <= 1000 else args[-4:]):
             for pre in ([], ["put:0"]):
@@ -152,6 +152,13 @@ def s_script(tier, seed, out):
         seq = [rng.choice(SCRIPT_ALPHA) for _ in range(k)]
         out.write("scan\tscript\t%s\t%s\n" % (thr_bits(rng.choice(THRS)), render_tokens(seq)))
         n += 1
+    # streams whose length is a size mined from the source (srcmine.py)
+    for sz in _srcmine.sizes(41, 5000):
+        for seq in ([_tk("d5"), _tk(" ")] * (sz // 2) + [_tk("d3")] * (sz % 2), [_tk("w"), _tk(" ")] * (sz // 2 - 1) + [_tk("d5"), _tk("t2")],
+                    [_tk("z")] * sz, [_tk("t2"), _tk("d5"), _tk(",")] * (sz // 3) + [_tk("w")] * (sz % 3)):
+            for th in (0.0, 10.0):
+                out.write("scan\tscript\t%s\t%s\n" % (thr_bits(th), render_tokens(seq)))
+                n += 1
     return n
 
 
@@ -176,6 +183,7 @@ def s_tok(tier, seed, out):
     # word joiner, BOM), controls, modifier letters/symbols, other numbers, private use, tag characters
     pool += ["\u00ad", "\u200b", "\u200d", "\u2060", "\ufeff", "\u0000", "\u0007", "\u001f", "\u007f", "\u0085",
              "\u02b0", "\u02c6", "\u00b2", "\u00bd", "\ue000", "\ufffd", "\U000e0001", "\u061c", "\u180e"]
+    pool += [c for c in _srcmine.special_chars() if c not in pool]
     for _ in range(20000 if tier != "thorough" else 200000):
         s = "".join(rng.choice(pool) for _ in range(1 + rng.below(14)))
         out.write("tok\t%s\n" % esc(s))
@@ -221,6 +229,15 @@ SEPS = [" ", " ", " ", ", ", ". ", "; ", ": ", " - ", "-", " ", "  ", "\t", " .
         "\u00a0" * 8 + "." + " " * 8, "\t" * 8 + "," + "\t" * 8,
         # format characters alone and between blanks
         "\ufeff", " \ufeff ", "\u200b ", " \u2060 ", "\u200d", " \u00ad ", "\u061c ", "\u180e "]
+# source-directed probing (srcmine.py): every non-alphanumeric character written in a literal of the current source, as a
+# separator alone, doubled and between blanks; every mined size as a run of blanks and as a pad around a full stop
+import srcmine as _srcmine
+for _c in _srcmine.special_chars():
+    for _v in (_c, _c + " ", " " + _c, " " + _c + " ", _c + _c):
+        if _v not in SEPS:
+            SEPS.append(_v)
+for _n in _srcmine.sizes(41, 300):
+    SEPS += [" " * _n, " " * (_n // 2) + "." + " " * (_n - _n // 2 - 1)]
 DECSEP = {"en": "point", "fr": "virgule", "es": "coma", "pt": "vírgula", "it": "virgola", "de": "Komma", "nl": "komma"}
 
 _bank_cache = {}
@@ -348,6 +365,7 @@ def s_lookup(tier, seed, out):
     # of blank, line ends, controls, quotes, punctuation), before, after, around and doubled; look-alike spellings
     affixes = ["\ufeff", "\u200b", "\u200c", "\u200d", "\u2060", "\u00ad", "\u00a0", "\u3000", "\u2028", "\u0085", "\t", "\n", "\r",
                "\r\n", "\u0000", "\u0001", "\u001f", "\u007f", ".", "-", "_", "/", "\"", "'", "\u2019", ",", ";", ":", "(", "\u0301", "\ufe0f"]
+    affixes += [c for c in _srcmine.special_chars() if c not in affixes]
     for c in ("en", "fr", "es", "pt", "it", "de", "nl"):
         for x in affixes:
             codes += [x + c, c + x, x + c + x, x + x + c, c + x + x, c[0] + x + c[1]]
